@@ -443,6 +443,10 @@ func (e *Exec) ensureModel() bool {
 	}
 	r, m := e.S.Check(nil, true)
 	if r == Sat {
+		if !e.modelSatisfiesPC(m) {
+			e.X.noteUnknown("solver model does not satisfy the path condition (model parse/encoding error)")
+			return false
+		}
 		e.model, e.modelOK = m, true
 		return true
 	}
@@ -478,6 +482,14 @@ func (e *Exec) decide(conds []*Term) int {
 		e.addPC(conds[d.K])
 		return d.K
 	}
+	// conditions that are literally conjuncts of the path condition need no query
+	for i, c := range conds {
+		if val, known := e.S.Known(c); known && val {
+			_ = i
+			e.dec = append(e.dec, Decision{K: i, V: 1 << 63})
+			return i
+		}
+	}
 	e.forks++
 	modelPick := -1
 	if e.ensureModel() {
@@ -496,6 +508,9 @@ func (e *Exec) decide(conds []*Term) int {
 			continue
 		}
 		if c.IsFalse() {
+			continue
+		}
+		if val, known := e.S.Known(c); known && !val {
 			continue
 		}
 		r, _ := e.S.Check(c, false)
@@ -581,4 +596,16 @@ func (e *Exec) noteAlloc(sz *Term) {
 		return
 	}
 	e.goPanic("allocation larger than the stated limit")
+}
+
+// modelSatisfiesPC re-evaluates every conjunct of the path condition under m with gosym's own
+// term evaluator: a guard against model parsing or encoding errors.
+func (e *Exec) modelSatisfiesPC(m Model) bool {
+	cache := map[*Term]uint64{}
+	for _, c := range e.pc {
+		if c.Eval(m, cache) != 1 {
+			return false
+		}
+	}
+	return true
 }
